@@ -46,6 +46,7 @@ fn run_guarded(suite: &dyn suites::Suite, lines: &[String]) -> Outcome {
                 obs: vec!["harness-panic".into()],
                 fails: vec![format!("PANIC escaped the case runner: {msg}")],
                 tags: vec!["panic".into()],
+                docs: vec![],
             }
         }
     }
@@ -107,6 +108,7 @@ fn main() {
             let mut f_in = std::io::BufWriter::new(fs::File::create(out_dir.join(format!("{suite_name}.in"))).unwrap());
             let mut f_impl = std::io::BufWriter::new(fs::File::create(out_dir.join(format!("{suite_name}.impl"))).unwrap());
             let mut f_or = std::io::BufWriter::new(fs::File::create(out_dir.join(format!("{suite_name}.oracle"))).unwrap());
+            let mut f_docs = std::io::BufWriter::new(fs::File::create(out_dir.join(format!("{suite_name}.docs"))).unwrap());
             let mut tags: BTreeMap<String, usize> = BTreeMap::new();
             let mut distinct: HashSet<String> = HashSet::new();
             let mut distinct_nontrivial = 0usize;
@@ -121,6 +123,9 @@ fn main() {
                 writeln!(f_impl, "case {k} {origin}").unwrap();
                 for l in &o.obs {
                     writeln!(f_impl, "{l}").unwrap();
+                }
+                for d in &o.docs {
+                    writeln!(f_docs, "{d}").unwrap();
                 }
                 writeln!(f_or, "case {k} {origin}").unwrap();
                 for l in &o.fails {
